@@ -116,7 +116,8 @@ def resolveWrite (d : DS) (m : Nat) (outs : List Char) : DS := Id.run do
         | some (b + 1) =>
           d := d.consume i
           d := d.setAx i { (d.ax i) with budget := some b }
-        | _ => pure ()
+        | none => d := d.consume i      -- UDP: whatever arrives later must have been sent
+        | some 0 => pure ()
     else if outs.getD i '-' == 'a' && outcome d.cfg (d.rd i) m == .refused then
       let a := d.ax i
       match a.budget with
